@@ -142,6 +142,8 @@ def rule_mergelookup(ctx):
     triples = [r for r in s.returns if r.term.op == "tuple" and len(r.term.a) == 3]
     need(len(triples) == len(s.returns) and triples, R, "merge_labeled_intervals: (intervals, x_labels, y_labels) return not found")
     main = [r for r in triples if any(x.op == "call" and call_name(x) == "np.unique" for x in tm.walk(r.term.a[0]))]
+    if len(triples) == 1:
+        main = triples
     short = [r for r in triples if r not in main]
     need(len(main) == 1, R, "merge_labeled_intervals: the return that merges the boundaries was not found")
     for k, r in enumerate(short):
